@@ -272,12 +272,47 @@ def judge_payload(ctx, case, payload, expect_reject, b, canary, label):
   return True
 
 
+# carbon.conf layouts in which the operator has the option OFF (an instance section overrides the program section;
+# booleans are read with ConfigParser.getboolean)
+CONF_LAYOUTS = [
+  {'main': None, 'inst': None}, {'main': 'False', 'inst': None}, {'main': 'no', 'inst': None},
+  {'main': 'True', 'inst': 'False'}, {'main': 'true', 'inst': 'off'}, {'main': 'yes', 'inst': '0'},
+  {'main': None, 'inst': 'False'}, {'main': 'False', 'inst': 'false'},
+]
+_resolved = {}
+
+
+def resolve_conf(b, layout):
+  """USE_INSECURE_UNPICKLER as the daemon's own read_config() resolves it for carbon-cache [instance a]."""
+  key = (layout['main'], layout['inst'])
+  if key in _resolved:
+    return _resolved[key]
+  import os
+  from carbon import conf
+  root = os.path.join(b.tmp, 'c13conf')
+  os.makedirs(os.path.join(root, 'conf'), exist_ok=True)
+  path = os.path.join(root, 'conf', 'carbon.conf')
+  with open(path, 'w') as f:
+    f.write('[cache]\nMAX_CACHE_SIZE = inf\n')
+    if layout['main'] is not None:
+      f.write('USE_INSECURE_UNPICKLER = %s\n' % layout['main'])
+    f.write('[cache:b]\nUSE_INSECURE_UNPICKLER = True\n')
+    if layout['inst'] is not None:
+      f.write('[cache:a]\nUSE_INSECURE_UNPICKLER = %s\n' % layout['inst'])
+  opts = {'config': path, 'instance': 'a' if layout['inst'] is not None else None, 'pidfile': None, 'logdir': None}
+  resolved = env.need(conf, 'read_config')('carbon-cache', opts, ROOT_DIR=root)
+  _resolved[key] = resolved['USE_INSECURE_UNPICKLER']
+  return _resolved[key]
+
+
 def execute(ctx, case):
   b = env.bootstrap()
   env.reset()
   canary = install_canaries()
   if b.settings.USE_INSECURE_UNPICKLER:
     raise HarnessError('USE_INSECURE_UNPICKLER default is not off')
+  if case.get('conf') is not None:
+    b.settings['USE_INSECURE_UNPICKLER'] = resolve_conf(b, case['conf'])
   kind = case['kind']
   if kind == 'global':
     module, name, route, nesting, proto = case['module'], case['name'], case['route'], case['nesting'], case['proto']
@@ -294,8 +329,9 @@ def execute(ctx, case):
                        '%s %s.%s nesting=%d proto=%d' % (route, module, name, nesting, proto))
     if ok:
       ctx.note(case, nontrivial=reaches_global_opcode(payload),
-               classes=['route:' + route, 'nesting=%d' % nesting] + (['allow-listed pair'] if allowed else []),
-               key=[route, module, name, nesting, proto])
+               classes=['route:' + route, 'nesting=%d' % nesting] + (['allow-listed pair'] if allowed else []) + (
+                 ['option resolved from carbon.conf sections'] if case.get('conf') else []),
+               key=[route, module, name, nesting, proto] + ([case['conf']['main'], case['conf']['inst']] if case.get('conf') else []))
     return ok
   if kind == 'raw':
     payload = bytes.fromhex(case['hex'])
@@ -352,6 +388,11 @@ def run(ctx):
           for proto in (0, 2, 4, 5):
             execute(ctx, {'kind': 'global', 'module': m, 'name': a, 'route': route, 'nesting': nesting, 'proto': proto,
                           'framed': proto >= 4 and nesting % 2 == 1})
+    # the option as resolved from carbon.conf (program section / instance section) rather than the built-in default
+    for layout in CONF_LAYOUTS:
+      for (m, a) in CANARY_TARGETS[:4]:
+        for route in ROUTES[:3]:
+          execute(ctx, {'kind': 'global', 'module': m, 'name': a, 'route': route, 'nesting': 1, 'proto': 2, 'conf': layout})
     for code in (240, 60000, 70000):
       for call in (False, True):
         for nesting in range(0, 5):
